@@ -181,7 +181,11 @@ OBLIGATIONS = [
               '0 <= a <= chunk and b == 0', '-1 <= f1 <= chunk', 'f2 == -1'],
          cases=_cases(['ranged'], ['seekable', 'stream'], [1], [True]), timeout=(150, 1200),
          splits=[['f1 == -1', 'size <= chunk'], ['f1 == -1', 'size > chunk'], ['0 <= f1', 'size <= chunk'],
-                 ['0 <= f1', 'size > chunk', 'chunk <= io'], ['0 <= f1 <= io', 'size > chunk', 'chunk > io'], ['io < f1', 'size > chunk', 'chunk > io']],
+                 ['0 <= f1', 'size > chunk', 'chunk <= io'],
+                 ['0 <= f1 <= io', 'size > chunk', 'chunk > io', 'a == 0'], ['0 <= f1 <= io', 'size > chunk', 'chunk > io', '0 < a <= io'],
+                 ['0 <= f1 <= io', 'size > chunk', 'chunk > io', 'io < a'],
+                 ['io < f1', 'size > chunk', 'chunk > io', 'a == 0'], ['io < f1', 'size > chunk', 'chunk > io', '0 < a <= io'],
+                 ['io < f1', 'size > chunk', 'chunk > io', 'io < a']],
          splits_thorough=[[]],
          pre_thorough=['1 <= thr <= size', '1 <= chunk', 'size <= 3 * chunk', '1 <= io', 'chunk <= 2 * io',
                        '0 <= a <= chunk and 0 <= b <= chunk', '-1 <= f1 <= chunk', '-1 <= f2 <= chunk'],
@@ -230,4 +234,4 @@ OBLIGATIONS = [
 ]
 
 from harness.codownload import OB_DL, protocol_fixed as co_download_protocol  # noqa: E402
-OBLIGATIONS += [dict(OB_DL, id='C02.5', impl='co_download_protocol', cases_thorough=OB_DL['cases'], splits_thorough=OB_DL['splits'], cases=[('stream', 3, 4), ('seekable', 3, -1)])]
+OBLIGATIONS += [dict(OB_DL, id='C02.5', impl='co_download_protocol', cases_thorough=OB_DL['cases_thorough'], splits_thorough=OB_DL['splits'], cases=[('seekable', 3, -1), ('seekable', 4, -1)])]
